@@ -49,6 +49,7 @@ type WCall struct {
 	Err                                     error
 	Returned                                bool
 	Panic                                   interface{}
+	LastReadSeq                             int64 // ReadFrom: when the reader was last asked for (and returned) data
 	BlockedAt                               int // site at which the scheduler saw the call blocked (0: never)
 	WaitedMutex                             bool
 	task                                    *simrt.Task
@@ -96,6 +97,7 @@ type WCfg struct {
 	Stalls      bool
 	Pokers      int // tasks that call IsActive / Context / Trigger concurrently
 	SmallReaders bool // ReadFrom / reader messages carry at most one streaming chunk (1024 bytes)
+	ReaderChunk  int  // > 0: ReadFrom's reader hands out at most this many bytes per Read
 }
 
 type pokeEvent struct{}
@@ -182,18 +184,30 @@ func split(b []byte, n int) [][]byte {
 	return out
 }
 
+// plainReader is the io.Reader handed to ReadFrom; with max > 0 it delivers at most that many bytes per Read
+// (so that messages are streamed as several chunk writes). It records when each data-carrying Read was requested.
 type plainReader struct {
-	b []byte
+	b    []byte
+	call *WCall
+	env  *Env
+	max  int // > 0: at most this many bytes per Read
 }
 
 func (r *plainReader) Read(p []byte) (int, error) {
 	if len(r.b) == 0 {
 		return 0, io.EOF
 	}
+	if r.max > 0 && len(p) > r.max {
+		p = p[:r.max]
+	}
+	r.call.noteRead(r.env)
 	n := copy(p, r.b)
 	r.b = r.b[n:]
 	return n, nil
 }
+
+//go:norace
+func (c *WCall) noteRead(e *Env) { c.LastReadSeq = e.Sim.NextEv() }
 
 // invoke performs one write call from the calling task and records it.
 func (h *WHist) invoke(c *WCall) {
@@ -236,7 +250,7 @@ func (h *WHist) invoke(c *WCall) {
 			n, err := ch.Writer().Write(buf)
 			c.setRes(int64(n), err)
 		case EReadFrom:
-			c.setRes(ch.ReadFrom(&plainReader{buf}))
+			c.setRes(ch.ReadFrom(&plainReader{b: buf, call: c, env: e, max: h.Cfg.ReaderChunk}))
 		case EChWrite:
 			err := ch.Write(buf)
 			if err == nil {
@@ -673,6 +687,11 @@ func (h *WHist) OracleClosedWritesFail(e *Env, segs []wseg) {
 		ck = "non-nil"
 	}
 	for _, c := range h.Calls {
+		// a streaming write that overlaps the Close: a chunk whose data was fetched from the reader after Close had
+		// returned is a write issued on a closed channel and must fail, so the whole call must report an error
+		if c.Phase == 2 && c.Entry == EReadFrom && c.Returned && h.CloseRet != 0 && c.LastReadSeq > h.CloseRet && c.Err == nil && c.Panic == nil {
+			e.Violate("error-after-close", fmt.Sprintf("%s,close(%s),chunk-after-close", classOf(c, h.Cfg.Chan), ck), "%s fetched a chunk from its reader (@%d) after Close had returned (@%d) and still reported success", c, c.LastReadSeq, h.CloseRet)
+		}
 		if c.Phase != 1 || !c.Returned {
 			continue
 		}
